@@ -255,6 +255,8 @@ def _pt(tok):
 
 def matches_finding(f, r):
     t = r["line"].split()
+    if f.get("pred") == "fix_identity_base" and t[0] == "e2m" and t[1].startswith("fix") and t[3] == "inf" and r["got"] == "err":
+        return True
     if f.get("pred") == "ep2_slide_long" and t[0] == "e2m" and t[1] == "slide" and r["got"] == "err":
         return int(t[4].lstrip("-"), 16).bit_length() > 257
     if f.get("pred") == "sim_table_identity" and t[0] == "e2s" and t[1] in ("trick", "joint") and r["got"] == "err" and r.get("context"):
